@@ -20,7 +20,7 @@ A unit file (verus/units/*.vunit) is a list of sections:
                              -- -> `lossy_string(X)`, a trusted wrapper whose body is that very expression)
   #gsubst <old> => <new> / #gsubst-re <regex> => <repl>   -- the same, applied to every #fn and #item that follows
   #attr <attribute>          -- a Verus attribute line placed above the function (e.g. #[verifier::loop_isolation(false)])
-  #block <signature> / #in <fn anchor> / #from[@N] <line> / #to <line>  -- a run of statements inside a long function is
+  #block <signature> / #in <fn anchor> / #from[@N] <line> (or #from-prefix <text>) / #to <line>  -- a run of statements inside a long function is
                              -- copied verbatim as the body of a function whose signature (the block's free variables
                              -- with their types) is written in the unit; everything else as for #fn
   #deasync                   -- the function is an `async fn`: the `async` keyword and every `.await` are dropped, so the body
@@ -289,6 +289,12 @@ def parse_unit(path):
                 unit["items"].append(("fn", cur_fn))
             elif d == "in":
                 cur_fn["anchor"] = arg
+            elif d == "from-prefix":
+                # `#from-prefix <text>`: the block starts at the only body line that BEGINS with <text> (for a statement
+                # whose remainder may be re-flowed or edited: the edit is then read, not lost)
+                cur_fn["block_from"] = arg
+                cur_fn["block_from_nth"] = None
+                cur_fn["block_from_prefix"] = True
             elif d == "from" or d.startswith("from@"):
                 # `#from@N <line>`: the N-th body line with that text (default: the only one)
                 cur_fn["block_from"] = arg
@@ -387,7 +393,10 @@ def assemble(unit, repo):
             block = None
             if val.get("block_sig"):
                 bl = body.split("\n")
-                f = [k for k, l in enumerate(bl) if l.strip() == val["block_from"]]
+                if val.get("block_from_prefix"):
+                    f = [k for k, l in enumerate(bl) if l.strip().startswith(val["block_from"])]
+                else:
+                    f = [k for k, l in enumerate(bl) if l.strip() == val["block_from"]]
                 nth = val.get("block_from_nth")
                 if (nth is None and len(f) != 1) or (nth is not None and len(f) < nth):
                     raise LostAnchor("block start %r matches %d lines in %s" % (val["block_from"], len(f), val["anchor"]))
